@@ -22,7 +22,9 @@ EXTENDS Integers, Sequences, FiniteSets, TLC, Fix
 
 CONSTANTS K,          \* lattice 0..K-1 x 0..K-1
           NP,         \* number of points
-          Continue    \* FALSE = pinned code, TRUE = repaired design
+          Continue,   \* FALSE = pinned code, TRUE = repaired design
+          AnyStart    \* TRUE: the walk may start at any node (search_for_optimal_start=True picks
+                      \* the cheapest of them); FALSE: it starts at the first point (node 0 of the code)
 
 VARIABLES pts, start, adj, stack, out, pc
 vars == <<pts, start, adj, stack, out, pc>>
@@ -37,21 +39,27 @@ Incr(n, lo) == IF n = 0 THEN {<<>>}
 Nodes == 1..NP
 D2(p, q) == (p[1] - q[1]) * (p[1] - q[1]) + (p[2] - q[2]) * (p[2] - q[2])
 (* the nearest two other points of node i: those with fewer than 2 points strictly closer *)
-Knn2(ps, i) == {j \in Nodes \ {i} :
-                  Cardinality({k \in Nodes \ {i} : D2(ps[i], ps[k]) < D2(ps[i], ps[j])}) < 2}
-Unambiguous(ps) == \A i \in Nodes : Cardinality(Knn2(ps, i)) = 2
+DistMat(ps) == [i \in Nodes |-> [j \in Nodes |-> D2(ps[i], ps[j])]]
+KnnD(dm, i) == {j \in Nodes \ {i} :
+                  Cardinality({k \in Nodes \ {i} : dm[i][k] < dm[i][j]}) < 2}
+Knn2(ps, i) == KnnD(DistMat(ps), i)
+Unambiguous(ps) == LET dm == DistMat(ps) IN \A i \in Nodes : Cardinality(KnnD(dm, i)) = 2
 (* undirected kneighbors graph *)
-Adj(ps) == [i \in Nodes |-> Knn2(ps, i) \cup {j \in Nodes : i \in Knn2(ps, j)}]
+Adj(ps) == LET dm == DistMat(ps)
+               nn == [i \in Nodes |-> KnnD(dm, i)]
+           IN [i \in Nodes |-> nn[i] \cup {j \in Nodes : i \in nn[j]}]
 
 Init ==
     /\ pts \in {[i \in Nodes |-> Pt(s[i])] : s \in Incr(NP, 0)}
-    /\ Unambiguous(pts)
-    /\ start \in Nodes
+    /\ start \in (IF AnyStart THEN Nodes ELSE {1})
     /\ adj = <<>> /\ stack = <<>> /\ out = <<>>
     /\ pc = "init"
 
+(* ambiguous point sets are not explored further (guard here rather than in Init, so that *)
+(* the workers filter in parallel)                                                         *)
 Build ==
     /\ pc = "init"
+    /\ Unambiguous(pts)
     /\ adj' = Adj(pts)
     /\ out' = <<start>> /\ stack' = <<start>>
     /\ pc' = "dfs"
